@@ -33,7 +33,9 @@ def _case(draw, tier):
             # how the solver state is handed back: as returned (a tuple), as a list (any Sequence[Tensor] is valid input),
             # and whether the chunks are requested through sdeint_adjoint (same forward values, returns a list)
             "extra_as_list": draw(st.sampled_from([False, False, True])),
-            "chain_via_adjoint": draw(st.sampled_from([False, False, False, True]))}
+            "chain_via_adjoint": draw(st.sampled_from([False, False, False, True])),
+            # output times given as a list of Python floats ("Tensor or sequence of float")
+            "ts_as_list": draw(st.sampled_from([False, False, True]))}
 
 
 class MixedSDE(torch.nn.Module):
@@ -83,7 +85,8 @@ def enumerate_cases(tier):
         yield {"spec": spec, "combo": combo, "time": {"t0": t0, "t1": t0 + (n + 0.4) * dt, "dt": dt, "tdtype": "float64"},
                "cuts": [rnd.randrange(10 ** 6), n - 1, rnd.randrange(10 ** 6)], "extra_out": [0.45],
                "entropy": rnd.randrange(2 ** 31 - 2), "cache_size": rnd.choice([45, 1, None]),
-               "extra_as_list": rnd.random() < 0.4, "chain_via_adjoint": rnd.random() < 0.3}
+               "extra_as_list": rnd.random() < 0.4, "chain_via_adjoint": rnd.random() < 0.3,
+               "ts_as_list": rnd.random() < 0.4}
     import os
     import random
     seed = int(os.environ.get("VERIF_SEED", "1") or 1)
@@ -174,12 +177,14 @@ def run_case(case):
     opts_before = dict(shared_opts) if shared_opts else None
     with torch.no_grad():
         rec_one = brownian_tools.make_recording(mk_bm())
-        ys_one, extra_one = torchsde.sdeint(sde, y0, ts_all, bm=rec_one, method=combo["method"], dt=dt,
-                                            options=shared_opts, extra=True)
+        as_list = bool(case.get("ts_as_list"))
+        ys_one, extra_one = torchsde.sdeint(sde, y0, ts_all.tolist() if as_list else ts_all, bm=rec_one,
+                                            method=combo["method"], dt=dt, options=shared_opts, extra=True)
         bm = mk_bm()
         rec = brownian_tools.make_recording(bm)
         y = y0
         extra = None
+        modified = None
         pieces = {all_t[0]: y0}
         for a, b in zip(bounds[:-1], bounds[1:]):
             ta, tb = grid_f[a], grid_f[b]
@@ -188,8 +193,14 @@ def run_case(case):
                 extra = list(extra)
             kw = {} if extra is None else {"extra_solver_state": extra}
             api = torchsde.sdeint_adjoint if case.get("chain_via_adjoint") else torchsde.sdeint
-            ys_c, extra = api(sde, y, ts_chunk, bm=rec, method=combo["method"], dt=dt,
+            handed = [y] + list(extra or [])
+            snap = [x.clone() for x in handed]
+            ys_c, extra = api(sde, y, ts_chunk.tolist() if as_list else ts_chunk, bm=rec, method=combo["method"], dt=dt,
                               options=shared_opts, extra=True, **kw)
+            # the checkpoint (state + extra solver state) a chunk was restarted from is the caller's: it may be restarted
+            # from again, so the restarted solve must leave it as it was
+            if modified is None and not all(torch.equal(p_, q_) for p_, q_ in zip(handed, snap)):
+                modified = ta
             for t, v in zip(ts_chunk, ys_c):
                 pieces[float(t)] = v
             y = ys_c[-1]
@@ -200,6 +211,11 @@ def run_case(case):
     checks += 1
     if (dict(shared_opts) if shared_opts else None) != opts_before:
         return fail("options_dict_modified", f"the caller's options dict {opts_before} came back as {shared_opts}")
+    checks += 1
+    if modified is not None:
+        return fail("checkpoint_modified", f"the state / extra solver state handed to the chunk restarted at t={modified} was "
+                                           f"changed in place by that solve: restarting from the same checkpoint again would not "
+                                           f"continue the trajectory")
     for i, t in enumerate(all_t):
         checks += 1
         if not torch.equal(ys_one[i], pieces[t]):
@@ -221,5 +237,7 @@ def run_case(case):
         labels.append("extra_state_passed_as_list")
     if case.get("chain_via_adjoint"):
         labels.append("chunks_via_sdeint_adjoint")
+    if case.get("ts_as_list"):
+        labels.append("ts_given_as_list_of_floats")
     return Result(nontrivial=len(bounds) >= 3 and sum(1 for s in steps if s >= 2) >= 2, labels=labels, checks=checks,
                   metrics={"steps": len(grid) - 1})
